@@ -53,7 +53,7 @@ theorem C07_known_branch (rec : FromRec) (ov : List (String × String)) (info : 
       .ok { st with obj := st.obj.setField info.oneOfName (.iface (some (lastSegment info.oneOfType, info.name, .sc c))) } := by
   unfold copyFromFieldWith
   have hne : (info.oneOfName != "") = true := by simpa using hb.oneof
-  simp [ha, hb.kind, TfVal.vkind, hb.vk, primDecode, known, hc, hb.notNullable, hne]
+  simp [ha, hb.kind, TfVal.vkind, hb.vk, primDecode, known, hc, hb.notNullable, hne, embedGuard]
 
 /-- a null or unknown branch does not touch the struct at all (it can neither set nor clear the holder) -/
 theorem C07_null_branch (rec : FromRec) (ov : List (String × String)) (info : FieldInfo) (k : PrimK)
@@ -63,7 +63,7 @@ theorem C07_null_branch (rec : FromRec) (ov : List (String × String)) (info : F
   unfold copyFromFieldWith
   have hne : (info.oneOfName != "") = true := by simpa using hb.oneof
   rcases hnu with rfl | rfl <;>
-    simp [ha, hb.kind, TfVal.vkind, hb.vk, primDecode, known, hb.notNullable, hne, zeroPrim]
+    simp [ha, hb.kind, TfVal.vkind, hb.vk, primDecode, known, hb.notNullable, hne, zeroPrim, embedGuard]
 
 /-- Composition: a message whose fields are the scalar branches of its oneof groups, read from an object in which
 all branch attributes are null or unknown: every holder is nil afterwards, whatever branch the target held. -/
